@@ -114,6 +114,20 @@ impl<'a> Evaluator<'a> {
         }
     }
 
+    /// Forgets the usages recorded since there were 'first' of them, except for those that refer to an existing symbol
+    pub fn keep_resolved_usages(&self, first: usize) {
+        let mut usages = self.usages.lock().unwrap();
+        let mut idx = 0;
+        usages.retain(|usage| {
+            idx += 1;
+            idx <= first || usage.symbol_index.is_some()
+        });
+    }
+
+    pub fn num_usages(&self) -> usize {
+        self.usages.lock().unwrap().len()
+    }
+
     pub fn usages(self) -> Vec<SymbolUsage> {
         let u = Arc::try_unwrap(self.usages).unwrap();
         Mutex::into_inner(u).unwrap()
@@ -284,6 +298,36 @@ impl<'a> Evaluator<'a> {
         }
 
         symbol_data
+    }
+
+    /// Records a usage for every identifier in the expression, without evaluating it: this also works for expressions
+    /// that can only be evaluated later on (an assertion that looks at the registers or the memory of a running test)
+    pub fn track_identifiers(&self, expr: &Located<Expression>) {
+        match &expr.data {
+            Expression::Factor { factor, .. } => match &factor.data {
+                ExpressionFactor::ExprParens { inner, .. } => self.track_identifiers(inner),
+                ExpressionFactor::FunctionCall { args, .. } => {
+                    args.iter().for_each(|(arg, _)| self.track_identifiers(arg))
+                }
+                ExpressionFactor::IdentifierValue { path, .. } => {
+                    self.lookup_symbol(path, true);
+                }
+                ExpressionFactor::InterpolatedString(i) => self.track_interpolated_identifiers(i),
+                ExpressionFactor::CurrentProgramCounter(_) | ExpressionFactor::Number { .. } => {}
+            },
+            Expression::BinaryExpression(bin) => {
+                self.track_identifiers(&bin.lhs);
+                self.track_identifiers(&bin.rhs);
+            }
+        }
+    }
+
+    pub fn track_interpolated_identifiers(&self, i: &InterpolatedString) {
+        for item in &i.items {
+            if let InterpolatedStringItem::IdentifierPath(path) = item {
+                self.lookup_symbol(path, true);
+            }
+        }
     }
 
     pub fn interpolate(
